@@ -20,6 +20,13 @@ rdcord2cards (the twelve numbers per card exactly, and the final dictionary thro
 written texts and on independently rendered GRID / CORD2x files; rddmig is compared frame by frame with the frame the
 Lean model assembles (DmigRead.frame).
 
+Further model files: Model/BulkDmigX.lean (rddmig expanded / square: stream rddmig-options), Model/BulkMulti.lean (files
+holding the cards of several readers: stream multi-file, the model's FileOK decision on every generated file),
+Model/BulkReal.lean (real fields through C12's exact float formatting: streams real-fields, wtdmig-real),
+Model/BulkUset.lean (uset2bulk / bulk2uset at the table level: streams uset-table-write / uset-table-read),
+Model/BulkFmt.lean + Generated/BulkFormats.lean (translator harness/translate/c13_bulkformats.py: the writers' format
+strings, widths, items per line, continuation markers, the reader's slicing constants).
+
 The model-free oracle restates the property on the API: read(write(x)) == x for every pair, including
 GRID / CORD2x / uset2bulk / bulk2uset and real / complex DMIG with non-integer values.  Coordinate values
 are drawn with mixed magnitudes (up to ~12 decades on one card, tiny non-zero components next to large
@@ -37,11 +44,11 @@ from fractions import Fraction
 
 import numpy as np
 
-from runner import Infra
+from runner import Infra, TieBroken
 
 ID = "C13"
 LEAN_MODULES = ["PyYetiVerif.Props.C13", "PyYetiVerif.Props.C13Text", "PyYetiVerif.Props.C13Dmig", "PyYetiVerif.Props.C13Grid",
-                "PyYetiVerif.Props.C13Cord", "PyYetiVerif.Audit.C13"]
+                "PyYetiVerif.Props.C13Cord", "PyYetiVerif.Props.C13DmigX", "PyYetiVerif.Props.C13Fmt", "PyYetiVerif.Props.C13Multi", "PyYetiVerif.Props.C13Values", "PyYetiVerif.Props.C13Uset", "PyYetiVerif.Props.C13Set", "PyYetiVerif.Audit.C13"]
 AUDIT_FILE = "PyYetiVerif/Audit/C13.lean"
 THEOREMS = [
     "PyYetiVerif.C13." + n
@@ -54,40 +61,62 @@ THEOREMS = [
         "dmig_roundtrip_converse dmig_assignments_iff dmig_reader_on_written dmig_frame_roundtrip "
         "dmig_value_field dmig_lines_cards dmig_text_roundtrip "
         "vecwrite_length_rule vecwrite_mismatch_raises vecwrite_broadcast wtgrids_packaging wtgrids_mismatch_raises "
-        "grid_roundtrip cord2_roundtrip uset_roundtrip"
+        "grid_roundtrip cord2_roundtrip uset_roundtrip "
+        "rddmig_default_is_plain rddmig_options_same_cells rddmig_square_index rddmig_expanded_index "
+        "rddmig_expanded_spec rddmig_square_spec rddmig_options_on_lines "
+        "bulk_format_widths_ok dmig_lines_are_templates grid_card_is_template cord_card_is_template nasints_is_template "
+        "set_tokens_are_templates tabled1_is_template "
+        "readers_independent typed_readers_independent sets_in_file wtset_is_segment "
+        "real_field_reads real_field_accuracy real_field_clean tabled1_roundtrip_values grid_roundtrip_values "
+        "cord2_roundtrip_values dmig_roundtrip_values dmig_lines_int_instance "
+        "uset_bulk_roundtrip_labels uset_bulk_roundtrip_labels_full set_header_split_fails set_roundtrip_iff_partial "
+        "dmig_field_fits dmig_terms_in_range tabled1_field_overflow_counterexample"
     ).split()
 ]
 TRUSTED = [
-    "correspondence harness harness/props/c13.py (exact text; number fields as exact decimals)",
-    "CPython str.format for '{:8d}', '{:<8s}', '{:>8}', '{:16.9E}' (integer rendering `dec` = Lean `toString`; "
-    "the %E rendering of integer-valued doubles |v| < 1e9 is modelled by `fmtE9` and correspondence-checked)",
-    "numeric field values (format_float8/16, '{:16.9E}' of non-integers, the `form` of wtgrids / wttabled1, '{:16.8e}' of "
-    "wtcoordcards, float()) belong to C12: the harness formats them with the card's own format string and hands them to the "
-    "model as opaque tokens, the theorems say the reader returns nas_sscanf(token); values are compared through the oracle "
-    "to the precision of the written format",
+    "correspondence harness harness/props/c13.py (exact text; number fields as exact decimals) and the translator "
+    "harness/translate/c13_bulkformats.py (Python ast, no execution of repo code)",
+    "CPython str.format for '{:8d}', '{:<8s}', '{:>8}' (integer rendering `dec` = Lean `toString`; padding = `padL` / `padR`); "
+    "CPython's float formatting '%.pE' / '%.pe' / '%.pf' is C12's bit-exact model Model/PyFloat.lean (fmtE, fmtF: correctly "
+    "rounded on the exact binary value), tied here by the exact-text stream real-fields (every decade, three-digit "
+    "exponents, subnormals, values that round to the next power of ten) and by wtdmig-real",
+    "user-supplied `form` strings of wtgrids / wttabled1 other than the defaults are formatted by Python and handed to the "
+    "model as opaque tokens (the theorems then say the reader returns nas_sscanf(token)); the default formats '{:16.8f}', "
+    "'{:16.9E}{:16.9E}' and the fixed _dmig_field ('{:16.9E}' / fallback '{:16.8E}', wtdmig), '{:16.8e}' (wtcoordcards) are modelled and proved as values",
     "text domain of the reader model: ASCII, no tabs, no 'inf'/'nan' words, no '_' inside numbers, no INCLUDE",
-    "np.allclose(m.T, m) of wtdmig is modelled as exact symmetry (correspondence uses integers |v| < 1e4, where the two coincide)",
-    "rddmig locates a cell by np.searchsorted on 10*id+dof, the model by label equality (the same for DOF 0..9); pandas "
-    "MultiIndex / DataFrame construction around the assembled matrix",
+    "np.allclose(m.T, m) of wtdmig is modelled as exact symmetry (the streams use exactly symmetric or clearly "
+    "asymmetric matrices; symmetric-within-allclose-only inputs are skipped and counted)",
+    "rddmig locates a cell by np.searchsorted on 10*id+dof, the model by label equality (the same for DOF 0..9 and labels "
+    "that are in the index: expanded=True therefore asks that an id is used either as a scalar point or as a grid); pandas "
+    "MultiIndex / DataFrame construction around the assembled matrix; the dmig_names filter argument is not modelled",
     "vecwrite arguments are Python scalars, lists, tuples or 1-d numpy arrays (np.ndim == 2 matrices and 0-d arrays are not "
     "used by the C13 writers)",
-    "wtcoordcards' noise floor (values below 1e-15 of the card's largest are written as 0) is applied by the harness before "
-    "formatting the nine tokens; n2p.mkcordcardinfo / build_coords / addgrid geometry is C14 (rdcord2cards is compared "
-    "through the real build_coords applied to the model's rows)",
+    "wtcoordcards' noise floor (values below 1e-15 of the card's largest are written as 0; the constant is checked by the "
+    "translator) is applied by the harness before the nine values are handed over; n2p.mkcordcardinfo / build_coords / "
+    "addgrid geometry is C14 (rdcord2cards is compared through the real build_coords applied to the model's rows); the "
+    "ORDER of the cards of uset2bulk is the dictionary order of the real mkcordcardinfo",
+    "USET tables are read entry by entry by the harness (a grid = six consecutive rows DOF 1..6, a scalar point = one row "
+    "DOF 0); np.argsort of distinct grid ids = ascending order; n2p.mkusetmask()['b'] = the constant of C18's generated table",
+    "C12's lemma files about fmtE / fmtF (Lemmas/PyFloatLog, NasFloatSci, NasFloatRat, PyFloatStr) are imported read-only; "
+    "through them the C13 closure contains C12's Generated/NasFloatTables.lean (not used by any C13 statement)",
 ]
 RULE = (
     "id lists built from run structures (singletons, runs of 2..12, line-filling lengths 0..40, unsorted and "
     "repeated ids, 1..8 digit ids), every start field 1..10, SET max_length 24..72 and short widths that force "
-    "token splits, TABLED1 with 0..13 points in four formats and both widths, DMIG with grid/scalar partial-DOF "
-    "index sets, forms 1/2/6/9, types 1-4; vecwrite with 1..5 arguments, each a scalar, a length-1 / length-N / "
-    "other-length list, tuple or array in every order (ValueError and IndexError cases included); wtgrids with 1..9 "
-    "grids, seven formats (8 and 16 wide), cp / cd / ps / seid scalar, length-1 vector, length-N vector or '' and "
-    "xyz with 1 row, N rows or a wrong number of rows; wtcoordcards with 1..3 systems of mixed magnitude; uset2bulk of "
-    "generated USET tables with 0..3 coordinate systems; reader variants re-render the same cards in fixed-8 / "
-    "fixed-16 / comma form with random continuation markers, comments, blank lines, case and spacing (GRID cards "
-    "of different length, CORD2x cards with 11, 12, 13 fields, words, near-miss names). A case is one "
-    "(writer or reader, input) pair; non-trivial = the text has more than one physical line, a THRU, a wrap, "
-    "a continuation, a vector argument or a non-default form; distinct by the canonical input"
+    "token splits (oracle: every max_length 2..26 x six id lists, round trip iff every token fits), TABLED1 with 0..13 "
+    "points in four formats and both widths, DMIG with grid/scalar partial-DOF index sets, forms 1/2/6/9, types 1-4, "
+    "integer AND real / complex values of 60 decades, read plain and with expanded / square / both; vecwrite with 1..5 "
+    "arguments, each a scalar, a length-1 / length-N / other-length list, tuple or array in every order (ValueError and "
+    "IndexError cases included); wtgrids with 1..9 grids, seven formats (8 and 16 wide), cp / cd / ps / seid scalar, "
+    "length-1 vector, length-N vector or '' and xyz with 1 row, N rows or a wrong number of rows; wtcoordcards with 1..3 "
+    "systems of mixed magnitude; uset2bulk of generated USET tables with 0..3 coordinate systems, also with scalar points "
+    "and grids out of id order; single real fields over every decade incl. three-digit exponents, zero, -0.0, subnormals, "
+    "values rounding to the next power of ten; files that interleave the cards of up to eight writers with comments, "
+    "foreign cards, empty lines and SET statements; reader variants re-render the same cards in fixed-8 / fixed-16 / comma "
+    "form with random continuation markers, comments, blank lines, case and spacing (GRID cards of different length, "
+    "CORD2x cards with 11, 12, 13 fields, words, near-miss names, SET statements with EXCEPT). A case is one (writer or "
+    "reader, input) pair; non-trivial = the text has more than one physical line, a THRU, a wrap, a continuation, a "
+    "vector argument or a non-default form; distinct by the canonical input"
 )
 ASSUMPTIONS = [
     "wtcoordcards zeroes values below 1e-15 of the largest value on the card (documented noise floor): coordinate "
@@ -104,53 +133,93 @@ ASSUMPTIONS = [
     "DMIG row labels are duplicate-free and column labels are duplicate-free (pandas allows duplicates; the reader then "
     "keeps the last term: shown by example in Props/C13Dmig.lean), DOF are 0..9",
     "wtgrids / vecwrite with no grid at all raise IndexError (modelled, not part of the round trip)",
+    "a real value is 'representable in the field' when its text in the writer's own format is not longer than the field: "
+    "'%.9E' of a NEGATIVE double with a three-digit exponent is 17 characters — wtdmig falls back to '%.8E' (F64, repaired: "
+    "dmig_field_fits needs no hypothesis on the values), wttabled1's default pair format does not (F65, open: the fit "
+    "hypothesis of tabled1_roundtrip_values, tabled1_field_overflow_counterexample)",
+    "rddmig(expanded=True): every id referenced on the DMIG is used either as a scalar point (DOF 0) or as a grid (DOF "
+    "1..6) throughout, form-9 column numbers are >= 1 and the header NCOL is an integer",
+    "files read by several readers: the line after a card is not a continuation line of that card's syntax (a line of "
+    "blanks after an 8-wide card IS one for _rdfixed); SET statements stand before BEGIN BULK; DMIG matrices in one file "
+    "carry different names",
+    "wtset: max_length >= 2 (max_length = 1 with a longer token does not terminate: _wrap_text_lines cuts pieces of length 0)",
+    "USET tables handed to uset2bulk: grid ids distinct; bulk2uset puts every DOF in the b-set and sorts by id, uset2bulk "
+    "does not write scalar points (documented: 'CORD2* and GRID cards')",
 ]
 PARTIAL = (
-    "the decimal rendering and parsing of a single REAL field (parse(format(x)) ~ x) is not proved here (C12's domain): "
-    "coordinates, table values and DMIG terms enter the theorems as opaque written fields and the theorems say the reader "
-    "returns nas_sscanf(field) (`nasScan`; `enc` in the DMIG theorems) — integer fields are proved exactly "
-    "(int_field_roundtrip); the DMIG theorems on physical lines (dmig_lines_cards, dmig_text_roundtrip) cover integer-valued "
-    "terms with at most 10 digits (the model's `fmtE9` renders exactly those; other values are compared through the oracle) "
-    "and a name that nas_sscanf returns unchanged; "
-    "set_roundtrip assumes max_length >= the longest token (shorter max_length splits tokens: writer text is "
-    "correspondence-checked, no round trip claimed); rdcord2cards is modelled up to the twelve numbers per card handed to "
-    "n2p.build_coords and bulk2uset up to the arrays handed to n2p.addgrid (geometry: C14; tied through the real "
-    "build_coords and by the round-trip oracle); rddmig(expanded=True / square=True) and the op2 path are oracle-only"
+    "set_roundtrip_iff is proved only as set_roundtrip_iff_partial: 'rdsets(wtset(...)) = {id: ids} iff every token fits "
+    "max_length' holds in Lean for <= always and for => when the token that does not fit is the head `SET n = ` with at "
+    "least two columns missing (set_header_split_fails: rdsets then returns {}); => for a cut ITEM token and for "
+    "len(head) = max_length + 1 is not proved — the equivalence is checked model-free on the real code for every "
+    "max_length 2..26 and the cut lines are tied by the exact-text stream; user-supplied `form` strings of "
+    "wtgrids / wttabled1 other than the defaults stay opaque tokens (reader returns nas_sscanf(token)); rdcord2cards is "
+    "modelled up to the twelve numbers per card handed to n2p.build_coords and bulk2uset up to the labels (id, dof, "
+    "nasset, cd id and type) and the written coordinates — the geometry of build_coords / addgrid is C14 (tied through the "
+    "real build_coords and the round-trip oracle); FileOK (hypothesis of readers_independent) is proved for a concrete "
+    "file and checked by the model on every generated file, not derived for all written files; the op2 path of rddmig "
+    "and its dmig_names filter are oracle-only / not modelled"
 )
 MANIFEST = {
     "level_text": "Proof (Lean 4, kernel-checked, standard axioms only) about an exact, character-level model of the bulk-data "
     "writers and readers. Proved for all inputs: THRU compression is inverted by expansion and emits THRU exactly for "
     "maximal runs; wtnasints lays any list out from any start field within 72 columns; rdspoints(wtspoints(ids)) = ids, "
-    "rdcsupers(wtcsuper(id, grids)) = {id: [id, 0, grids]} and rdextrn(wtextrn(ids, dof)) = the pairs, on physical lines; a written integer field is read back exactly (int(format(n)) = n, any "
-    "padding); rdsets(wtset(id, ids, max_length)) = {id: ids} on physical lines for every non-empty list of non-negative "
-    "ids and every max_length >= the longest token, and for ANY way of breaking the tokens into lines (the regular "
-    "expressions of rdsets are modelled as explicit scanners); rdtabled1(wttabled1(...)) on physical lines for every "
-    "number of points >= 0 and both widths (comment stripping, rstrip, column slicing, line padding, ENDT); DMIG: card "
-    "structure, form 6 iff identical index lists and mirrored matrix, the reader's assignments are EXACTLY the non-zero "
-    "terms (both directions, mirror included), and rddmig(wtdmig(X)) = X as one statement on the card values: sorted "
-    "duplicate-free row/column index = labels of the non-null rows/columns (union for form 6), every cell = the term (0 "
-    "for a zero term, imaginary part 0 for real types), nothing lost, for forms 1/2/6/9 and types 1-4 — and the same on "
-    "the physical lines of wtdmig (rddmig(text) returns exactly that one frame under the lower-cased name) for "
-    "integer-valued terms of at most 10 digits; writer.vecwrite: "
-    "the length rule (every argument longer than 1 has the row count, a later length-1 argument cannot reset it, two "
-    "different lengths raise) and the broadcast semantics for every packaging; wtgrids writes the text of the fully "
-    "expanded call for every packaging (scalar / length-1 / length-N, xyz 1 or N rows) and rdgrids(wtgrids(...)) returns "
-    "one row [id, cp, x, y, z, cd, ps, seid] per grid on physical lines (8 and 16 wide, short and PS/SEID forms, blank "
-    "fields as 0); rdcord2cards(wtcoordcards(ci)) gives [cid, type, ref, A, B, C] per card; uset2bulk's file is read back "
-    "by both readers of bulk2uset, neither disturbed by the other's cards. Real-valued fields are opaque written tokens "
-    "of which the theorems say the reader returns nas_sscanf(token). Tied to pyyeti/nastran/bulk.py and pyyeti/writer.py by "
-    "character-for-character correspondence of every writer and value-for-value correspondence of every reader on "
-    "written and independently rendered texts. Right level: the layer is list/column/character arithmetic, fully "
-    "provable; single real-field formats are C12, coordinate geometry C14.",
-    "level_note": "Trusted: Lean kernel; propext, Classical.choice, Quot.sound; the Python harness; CPython integer "
-    "formatting. Not proved (tied by correspondence / oracle only): parse(format(x)) of one real field (C12); DMIG text "
-    "with non-integer terms (the card-value theorems cover them through `enc`); token splitting for max_length shorter than a token; n2p.build_coords / addgrid / "
-    "mkcordcardinfo behind rdcord2cards / bulk2uset / uset2bulk (C14); rddmig(expanded / square) and op2 DMIG.",
-    "technique": "Lean 4 proof (induction over run/line/column/character structure) + exact-text differential "
+    "rdcsupers(wtcsuper(id, grids)) = {id: [id, 0, grids]} and rdextrn(wtextrn(ids, dof)) = the pairs, on physical lines; a "
+    "written integer field is read back exactly; rdsets(wtset(id, ids, max_length)) = {id: ids} on physical lines for every "
+    "non-empty list of non-negative ids (sorted or not, with repeats) and every max_length >= the longest token, for ANY "
+    "way of breaking the tokens into lines, and for any number of SET statements between other lines of one file "
+    "(sets_in_file); rdtabled1(wttabled1(...)) for every number of points and both widths; DMIG: card structure, form 6 iff "
+    "identical index lists and mirrored matrix, the reader's assignments are EXACTLY the non-zero terms, rddmig(wtdmig(X)) "
+    "= X as one statement (sorted duplicate-free index of the non-null rows/columns, every cell = the term, nothing "
+    "lost) for forms 1/2/6/9 and types 1-4 on the card values AND on the physical lines — for integer-valued and for "
+    "REAL / COMPLEX valued terms; rddmig(expanded=True) and rddmig(square=True): the options only re-index (same cells on "
+    "every card list), the expanded index is all six DOF of every referenced grid id / the single label of a scalar "
+    "point, form-9 columns 1..NCOL, form 1 with square gets the union index zero-filled and NOT mirrored, every written "
+    "term sits at its own (row id, column id) and all other positions are 0; VALUES: a written '{:w.pE}' / '{:w.pe}' / D / "
+    "'{:w.pf}' field (C12's bit-exact float formatting) is read back by nas_sscanf as exactly the decimal it shows, "
+    "within half a unit of its last digit of the value written (relative 0.5e-p for E formats, absolute 0.5e-p for f), "
+    "and on physical lines tabled1_roundtrip_values ({:16.9E}), grid_roundtrip_values ({:16.8f}), cord2_roundtrip_values "
+    "({:16.8e}), dmig_roundtrip_values ({:16.9E} / D) state the values read; files with the cards of several readers: each "
+    "reader returns exactly its own cards' content regardless of the other cards, comments and SET statements present "
+    "(readers_independent, typed for rddmig / rdgrids / rdcord2cards / rdspoints / rdcsupers / rdextrn / rdtabled1); "
+    "uset2bulk -> bulk2uset at the table level: per grid sorted by id (id, cd, type of cd), six DOF, b-set; scalar points "
+    "are not written (label-for-label identity exactly for sorted all-grid b-set tables, cd != cp included); "
+    "writer.vecwrite's length rule and broadcast semantics, wtgrids for every packaging, rdgrids(wtgrids), "
+    "rdcord2cards(wtcoordcards). The writers' format strings, field widths, items per line, continuation markers and the "
+    "reader's slicing constants are regenerated from the source by a translator; their side conditions are re-proved by "
+    "decide and the model's text is proved to BE the rendering of the extracted templates. Tied to "
+    "pyyeti/nastran/bulk.py and pyyeti/writer.py by character-for-character correspondence of every writer and "
+    "value-for-value correspondence of every reader on written, independently rendered and interleaved texts. Right "
+    "level: the layer is list/column/character arithmetic plus one rounding per real field, fully provable; coordinate "
+    "geometry is C14.",
+    "level_note": "Trusted: Lean kernel; propext, Classical.choice, Quot.sound; the Python harness and translator; CPython "
+    "integer formatting; C12's float-format model (tied again here by an exact-text stream). Not proved (tied by "
+    "correspondence / oracle only): that a token of wtset cut by a short max_length breaks the round trip (the converse "
+    "direction of set_roundtrip; the oracle checks the iff for max_length 2..26); user-supplied `form` strings other than "
+    "the defaults (opaque tokens); n2p.build_coords / addgrid / mkcordcardinfo geometry behind rdcord2cards / bulk2uset / "
+    "uset2bulk (C14); FileOK for arbitrary written files (checked per generated file by the model's own decision "
+    "procedure); op2 DMIG. Findings: a NEGATIVE value with a three-digit decimal exponent needs 17 characters in '{:16.9E}' — "
+    "F64 wtdmig (repaired by 4411a34: _dmig_field falls back to '{:16.8E}'; modelled, translated, dmig_field_fits; regression "
+    "guard in the oracle), F65 wttabled1 default pair format (open: over-long field, the reader returns another number; "
+    "tabled1_field_overflow_counterexample).",
+    "technique": "Lean 4 proof (induction over run/line/column/character structure; rational bounds through C12's eParts / "
+    "rheDiv lemmas) + Python-ast translator of format strings and layout constants + exact-text differential "
     "correspondence with pyyeti.nastran.bulk / pyyeti.writer writers and readers",
 }
 
 NAMES_BAD = {"INF", "NAN", "INFINITY"}
+
+
+def translate(ctx):
+    """format strings / field widths / layout constants of the writers and the slicing constants of the card reader,
+    regenerated from pyyeti/nastran/bulk.py (Python ast, no execution) into Generated/BulkFormats.lean"""
+    from translate import c13_bulkformats as tr
+
+    try:
+        c = tr.run(ctx.repo, ctx.lean)
+    except tr.Unparsable as e:
+        raise TieBroken("bulk.py format strings: %s" % e)
+    ctx.extra["bulk_formats"] = {"constants": c["C"], "strings": c["S"], "templates": sorted(c["T"])}
+    return ["BulkFormats"]
 
 # ---------------------------------------------------------------------------------------
 # helpers
@@ -696,6 +765,10 @@ def _variant_texts(ctx, texts):
         ("set", "set 10 = 5 thru 9,\n\n  11\n"),
         ("set", "SET 11 = 1, 2,,\n3\n"),  # several trailing commas: rstrip(",") removes them all
         ("set", "SET 12 = 4 THRU 6,,, \n 9,\n10\n"),
+        # EXCEPT is not supported by the reader: after a THRU it is silently ignored (re.search finds the THRU and the rest
+        # of the item is dropped: the excepted ids stay in the set), on its own it is a ValueError
+        ("set", "SET 13 = 1 THRU 10 EXCEPT 5, 20\n"), ("set", "SET 14 = 1, EXCEPT 3\n"),
+        ("set", "SET 15 = 1 THRU 10 EXCEPT 3 THRU 5\n"), ("set", "SET 16 = ALL\n"),
         ("extrn", "EXTRN,3,123456,11\n"),  # odd number of values
         ("extrn", "EXTRN          3  123456      11  123456 $ c\n"),
         ("spoint", "SPOINT*              980            thru            1004\n"),
@@ -905,6 +978,17 @@ def _reader_streams(ctx, B, texts):
             r = _read(bulk.rddmig, text)
             impl = "error" if isinstance(r, str) else [_frame_canon(k, v) for k, v in r.items()]
             B.add("rddmig", "rddmig " + th, {"text": text}, impl, _dmig_conv, branch="rddmig")
+            # the re-indexing options: expanded (all six DOF of every grid id; form 9: columns 1..NCOL),
+            # square (form 1: union index on both axes, zero filled, not mirrored)
+            forms = {ln[24:32].strip() for ln in text.split("\n") if ln.upper().startswith("DMIG ")}
+            forms |= {ln.split(",")[3].strip() for ln in text.split("\n") if ln.upper().startswith("DMIG,") and ln.count(",") >= 3}
+            for e, q in ((1, 0), (0, 1), (1, 1)):
+                r = _read(bulk.rddmig, text, expanded=bool(e), square=bool(q))
+                impl = "error" if isinstance(r, str) else [_frame_canon(k, v) for k, v in r.items()]
+                br = ["rddmigx:" + ("expanded" if e else "") + ("square" if q else "")]
+                br += ["rddmigx:form%s-%s" % (f, "expanded" if e else "square") for f in forms if f in ("1", "2", "6", "9")]
+                B.add("rddmig-options", "rddmigx %d %d %s" % (e, q, th), {"text": text, "expanded": bool(e), "square": bool(q)},
+                      impl, _dmig_conv, branch=br)
 
 
 def _fixed8_to_comma(text):
@@ -1301,6 +1385,344 @@ def _grid_to_comma(text, rng):
     return "\n".join(out) + "\n"
 
 
+# ---------------------------------------------------------------------------------------
+# files that hold the cards of several readers (Model/BulkMulti.lean)
+
+OWNERS = {"dmig": 0, "grid": 1, "cord2r": 2, "cord2c": 2, "cord2s": 2, "spoint": 3, "csuper": 4, "extrn": 5, "tabled1": 6}
+
+
+def _segments(text):
+    """cut a written block into the segments of Model/BulkMulti.lean: a card = a line that begins with a letter and the
+    following lines that begin with one of ' +*'; comment lines, SET statements and everything else are junk"""
+    segs = []
+    lines = text.split("\n")
+    if lines and lines[-1] == "":
+        lines.pop()
+    in_set = False
+    for ln in lines:
+        low = ln.lower()
+        owner = None
+        for nm, o in OWNERS.items():
+            if low.startswith(nm) and not low.startswith("set"):
+                owner = o
+                break
+        if owner is not None:
+            segs.append(["c%d" % owner, ln])
+            in_set = False
+        elif ln[:1] in (" ", "+", "*") and segs and segs[-1][0] != "j" and not in_set:
+            segs[-1].append(ln)
+        else:
+            in_set = low.lstrip().startswith("set") or (in_set and ln[:1].isdigit())
+            if segs and segs[-1][0] == "j":
+                segs[-1].append(ln)
+            else:
+                segs.append(["j", ln])
+    return segs
+
+
+def _gen_multi_file(rng, dmig=True):
+    """one file with the cards of several writers, comments, foreign cards, empty lines and SET statements interleaved;
+    -> (text, segments, {reader: text of its own blocks alone, in file order}, sets)"""
+    bulk = _bulk()
+    blocks = []   # (reader or None, text)
+    names = set()
+    for _ in range(rng.randint(1, 3) if dmig else 0):
+        d = _gen_dmig_int(rng)
+        if d["name"].lower() in names or not any(any(v != (0, 0) for v in row) for row in d["m"]):
+            continue
+        names.add(d["name"].lower())
+        blocks.append(("dmig", _write(bulk.wtdmig, {d["name"]: _dmig_frame(d)})))
+    for _ in range(rng.randint(0, 2)):
+        c = _gen_grid_case(rng, bad=0.0)
+        t = _grid_write(c)
+        if not t.startswith("error"):
+            blocks.append(("grid", t))
+    if rng.random() < 0.7:
+        blocks.append(("cord2", _write(bulk.wtcoordcards, _gen_cord_ci(rng))))
+    if rng.random() < 0.6:
+        blocks.append(("spoint", _write(bulk.wtspoints, [i for i in _gen_idlist(rng, 25) if i > 0] or [5])))
+    if rng.random() < 0.6:
+        blocks.append(("csuper", _write(bulk.wtcsuper, rng.randint(1, 999), [i for i in _gen_idlist(rng, 25) if i > 0])))
+    if rng.random() < 0.5:
+        ids = [i for i in _gen_idlist(rng, 12) if i > 0] or [9]
+        blocks.append(("extrn", _write(bulk.wtextrn, ids, [rng.choice([0, 123456, 3]) for _ in ids])))
+    if rng.random() < 0.5:
+        form, _w = FORMS[rng.randrange(len(FORMS))]
+        t, dd = _gen_table(rng, rng.randint(1, 9))
+        blocks.append(("tabled1", _write(bulk.wttabled1, rng.randint(1, 9999), t, dd, None, form)))
+    sets = []
+    for _ in range(rng.randint(0, 2)):
+        sid = rng.randint(1, 99999)
+        ids = [i for i in _gen_idlist(rng, 30) if i > 0] or [1]
+        if sid in [s_[0] for s_ in sets]:
+            continue
+        sets.append((sid, ids))
+        blocks.append((None, _write(bulk.wtset, sid, ids, rng.choice([72, 40, 30])) + "\n"))
+    rng.shuffle(blocks)
+    out = []
+    for rd, text in blocks:
+        u = rng.random()
+        if u < 0.25:
+            out.append((None, "$ a comment\n"))
+        elif u < 0.35:
+            out.append((None, "\n"))
+        elif u < 0.5:
+            out.append((None, "PARAM   POST    -1\n"))
+        elif u < 0.55:
+            out.append((None, "$\n$ DMIG GRID CORD2R in a comment\n"))
+        out.append((rd, text))
+    text = "".join(t for _, t in out)
+    own = {}
+    for rd, t in out:
+        if rd:
+            own[rd] = own.get(rd, "") + t
+    order = [sid for sid, _ in sorted(sets, key=lambda p: [i for i, (rd, t) in enumerate(out) if t.startswith("SET %d = " % p[0])][0])]
+    sets_in_order = [(sid, dict(sets)[sid]) for sid in order]
+    return text, _segments(text), own, sets_in_order
+
+
+def _multi_streams(ctx, B):
+    bulk = _bulk()
+    from pyyeti.nastran import n2p
+
+    for k in range(ctx.pick(60, 600)):
+        text, segs, own, sets = _gen_multi_file(ctx.rng, dmig=k % 20 != 0)
+        th = _hex(text)
+        req = "fileok " + " ".join("/".join([s_[0]] + [_hex(l) for l in s_[1:]]) for s_ in segs)
+        B.add("multi-file", req, {"text": text}, "ok", branch=["multi:fileok"] + ["multi:" + k for k in sorted(own)] +
+              (["multi:set"] if sets else []))
+        r = _read(bulk.rddmig, text)
+        B.add("multi-file", "rddmig " + th, {"text": text, "reader": "rddmig"},
+              "error" if isinstance(r, str) else [_frame_canon(k, v) for k, v in r.items()], _dmig_conv,
+              branch="multi:rddmig-" + ("no-dmig-card" if "dmig" not in own else "ok"))
+        e, q = ctx.rng.choice([(1, 0), (0, 1), (1, 1)])
+        r = _read(bulk.rddmig, text, expanded=bool(e), square=bool(q))
+        B.add("multi-file", "rddmigx %d %d %s" % (e, q, th), {"text": text, "reader": "rddmig", "expanded": bool(e), "square": bool(q)},
+              "error" if isinstance(r, str) else [_frame_canon(k, v) for k, v in r.items()], _dmig_conv)
+        r = _read(bulk.rdgrids, text)
+        B.add("multi-file", "rdgrids " + th, {"text": text, "reader": "rdgrids"},
+              "none" if r is None else (r if isinstance(r, str) else [[float(v) for v in row] for row in r.tolist()]), _rows_conv)
+        full = _read(bulk.rdcord2cards, text)
+
+        def conv_full(rep, n2p=n2p):
+            rows = [] if rep == "" else _rows_conv(rep)
+            if rows == "error":
+                return "error:ValueError"
+            if not rows:
+                return {}
+            try:
+                dd = n2p.build_coords(np.array(rows, dtype=float))
+            except Exception as ex:
+                return "error:" + type(ex).__name__
+            return {int(k): v.tolist() for k, v in dd.items()}
+
+        B.add("multi-file", "rdcord2 " + th, {"text": text, "reader": "rdcord2cards"},
+              full if isinstance(full, str) else {int(k): v.tolist() for k, v in full.items()}, conv_full)
+        if "spoint" in own:
+            r = _read(bulk.rdspoints, text)
+            B.add("multi-file", "rdspoints " + th, {"text": text, "reader": "rdspoints"},
+                  "error" if isinstance(r, str) else [int(v) for v in r],
+                  lambda rep: rep if rep == "error" else [int(v) for v in rep.split()])
+        r = _read(bulk.rdsets, text)
+        impl = "error" if isinstance(r, str) else [(int(k), [int(x) for x in v]) for k, v in r.items()]
+
+        def conv_sets(rep):
+            if rep == "error":
+                return rep
+            if rep == "":
+                return []
+            return [(_val_model(item.split("=")[0])[1], [int(x) for x in item.split("=")[1].split()]) for item in rep.split(";")]
+
+        B.add("multi-file", "rdsets " + th, {"text": text, "reader": "rdsets"}, impl, conv_sets)
+
+
+# ---------------------------------------------------------------------------------------
+# real-valued fields (Model/BulkReal.lean: C12's exact float formatting)
+
+import struct
+
+
+def _bits(x):
+    return struct.unpack("<Q", struct.pack("<d", float(x)))[0]
+
+
+def _gen_double(rng):
+    u = rng.random()
+    if u < 0.08:
+        return rng.choice([0.0, -0.0, 1.0, -1.0, 0.5, 9.9999999995, 99999.999995, 9.9999999999999e99, 1e100, -1e-100, 5e-324,
+                           -2.2250738585072014e-308, 1.7976931348623157e308, 0.1, -0.015625, 123456789.0, 999999.999999995])
+    if u < 0.5:
+        return rng.choice([-1.0, 1.0]) * rng.uniform(1.0, 9.999999) * 10.0 ** rng.randint(-12, 12)
+    if u < 0.8:
+        return rng.choice([-1.0, 1.0]) * rng.uniform(1.0, 9.999999) * 10.0 ** rng.randint(-300, 300)
+    if u < 0.9:
+        return float(rng.randint(-10 ** 9, 10 ** 9)) / rng.choice([1, 2, 4, 8, 1000])
+    # values that round to the next power of ten at 9 / 10 significant digits
+    return rng.choice([-1.0, 1.0]) * (10.0 ** rng.randint(-20, 20)) * (1 - rng.choice([1e-10, 4.9e-10, 5e-10, 5.1e-10, 1e-9, 1e-11]))
+
+
+REAL_SPECS = [(16, 9, "E"), (16, 8, "e"), (16, 8, "f"), (8, 2, "f"), (8, 5, "f"), (16, 2, "f"), (16, 5, "f"), (8, 3, "f"), (16, 6, "f"),
+              (8, 1, "f")]
+
+
+def _gen_dmig_real(rng):
+    """a real / complex valued DMIG input: _gen_dmig_int structure with non-integer doubles (float32 for types 1 / 3)"""
+    d = _gen_dmig_int(rng)
+    dt = {1: np.float32, 2: np.float64, 3: np.float32, 4: np.float64}[d["mtype"]]
+
+    wide = d["mtype"] % 2 == 0 and rng.random() < 0.25   # double types: also three-digit exponents (the fallback field)
+
+    def rv():
+        if wide and rng.random() < 0.5:
+            mag = 10.0 ** rng.choice([rng.randint(-300, -100), rng.randint(100, 300)])
+        else:
+            mag = 10.0 ** rng.randint(-30 if d["mtype"] % 2 == 0 else -20, 30 if d["mtype"] % 2 == 0 else 20) if rng.random() < 0.5 else 1.0
+        return float(dt(rng.uniform(0.5, 9.5) * rng.choice([-1, 1]) * mag))
+
+    vals = {}
+    m = []
+    for i, row in enumerate(d["m"]):
+        out = []
+        for j, (re, im) in enumerate(row):
+            key = (min(i, j), max(i, j)) if d["kind"] in ("sym", "sparse-sym", "f9-unequal") else (i, j)
+            if key not in vals:
+                vals[key] = (rv() if re else 0.0, rv() if im else 0.0)
+            x, y = vals[key]
+            if d["kind"] == "hermitian" and i < j:
+                y = -vals[(j, i)][1] if (j, i) in vals else y
+            out.append((x, y))
+        m.append(out)
+    if d["kind"] == "hermitian":
+        for i in range(len(m)):
+            for j in range(i):
+                m[j][i] = (m[i][j][0], -m[i][j][1])
+    d["mr"] = m
+    return d
+
+
+def _dmig_real_req(d):
+    flat = []
+    for p in d["rowids"] + d["colids"]:
+        flat += [p[0], p[1]]
+    for row in d["mr"]:
+        for re, im in row:
+            flat += [_bits(re) if re != 0 else 0, _bits(im) if im != 0 else 0]
+    return "dmigr %s %d %d %d %d %s" % (_hex(d["name"]), 1 if d["single"] else 0, d["mtype"], len(d["rowids"]), len(d["colids"]),
+                                        " ".join(str(v) for v in flat))
+
+
+def _real_streams(ctx, B, texts):
+    bulk = _bulk()
+    rng = ctx.rng
+    for _ in range(ctx.pick(1500, 15000)):
+        x = _gen_double(rng)
+        w, p, ty = REAL_SPECS[rng.randrange(len(REAL_SPECS))] if rng.random() < 0.5 else REAL_SPECS[rng.randrange(3)]
+        if ty == "f" and abs(x) > 1e22:
+            x = x / 10.0 ** rng.randint(280, 300) if abs(x) > 1e280 else math.copysign(1.0, x) * (abs(x) % 1e15)
+        impl = ("{:%d.%d%s}" % (w, p, ty)).format(x)
+        if ty == "f":
+            req = "pyf %d %d %d" % (w, p, _bits(x))
+        else:
+            ec = ty
+            if ty == "E" and rng.random() < 0.4:
+                impl, ec = impl.replace("E", "D"), "D"
+            req = "pye %d %d %s %d" % (w, p, ec, _bits(x))
+        e3 = ty != "f" and x != 0 and not (1e-99 <= abs(x) < 9.9e99)
+        B.add("real-fields", req, {"x": x, "spec": "{:%d.%d%s}" % (w, p, ty)}, impl, lambda rep: _unhex(rep),
+              branch=["real:" + ty] + (["real:three-digit-exponent"] if e3 else []) + (["real:zero"] if x == 0 else []) +
+                     (["real:wider-than-field"] if len(impl) > w else []))
+    for _ in range(ctx.pick(250, 2500)):
+        d = _gen_dmig_real(rng)
+        a = np.array([[complex(re, im) for re, im in row] for row in d["mr"]])
+        if a.shape[0] == a.shape[1] and np.allclose(a.T, a) and not np.array_equal(a.T, a):
+            # symmetric within np.allclose only: symmetric by the writer's definition, outside the model's (ASSUMPTIONS)
+            ctx.skip("dmig-real: symmetric within np.allclose but not exactly")
+            continue
+        impl = _write(bulk.wtdmig, {d["name"]: _dmig_frame(d, a if d["mtype"] >= 3 else a.real)})
+        form = impl[24:32].strip() if isinstance(impl, str) and len(impl) > 32 else "?"
+        B.add("wtdmig-real", _dmig_real_req(d), {k: d[k] for k in ("name", "single", "mtype", "rowids", "colids", "mr")}, impl,
+              _text_conv(), branch=["dmigr:form" + form, "dmigr:type%d" % d["mtype"]] +
+              (["dmigr:fallback-field"] if any(v < 0 and not (1e-99 <= -v < 9.9999999995e99) for row in d["mr"] for pr in row for v in pr) else []))
+        if isinstance(impl, str) and not impl.startswith("error") and rng.random() < 0.5:
+            texts.append(("dmig", impl))
+
+
+# ---------------------------------------------------------------------------------------
+# uset2bulk / bulk2uset at the table level (Model/BulkUset.lean)
+
+
+def _gen_uset_table(rng):
+    """a USET table with grids in any order, output systems different from the input systems, and scalar points
+    (one row, DOF 0) before / between / after the grids -> (uset, entries) with entries = ('g', id, cd, cdtype, xyz) | ('s', id)"""
+    import pandas as pd
+    from pyyeti.nastran import n2p
+
+    case = {"seed": rng.randint(0, 2 ** 31), "ncs": rng.randint(0, 3), "ngrids": rng.randint(1, 5), "mixed": False}
+    uset = _gen_uset(case)[0]
+    blocks = [uset.iloc[6 * k:6 * k + 6] for k in range(len(uset) // 6)]
+    if rng.random() < 0.5:
+        rng.shuffle(blocks)
+    used = set(int(i) for i in uset.index.get_level_values("id"))
+    for _ in range(rng.choice([0, 0, 1, 2, 3])):
+        sid = rng.choice([i for i in range(1, 9000) if i not in used])
+        used.add(sid)
+        blocks.insert(rng.randint(0, len(blocks)), n2p.make_uset([[sid, 0]], rng.choice(["b", "q", "o"])))
+    tab = pd.concat(blocks, axis=0)
+    ents = []
+    for b in blocks:
+        gid = int(b.index[0][0])
+        if int(b.index[0][1]) == 0:
+            ents.append(("s", gid))
+        else:
+            ents.append(("g", gid, int(b.iloc[1, 1]), int(b.iloc[1, 2]), [float(v) for v in b.iloc[0, 1:4]]))
+    return tab, ents
+
+
+def _uset_table_streams(ctx, B):
+    bulk = _bulk()
+    from pyyeti.nastran import n2p
+
+    rng = ctx.rng
+    for _ in range(ctx.pick(60, 600)):
+        try:
+            tab, ents = _gen_uset_table(rng)
+            ci = n2p.mkcordcardinfo(tab)
+        except Exception as e:
+            ctx.skip("uset-table generator:" + type(e).__name__)
+            continue
+        impl = _write(bulk.uset2bulk, tab)
+        parts = []
+        for e in ents:
+            if e[0] == "s":
+                parts.append("s %d" % e[1])
+            else:
+                parts.append("g %d %d %d %s" % (e[1], e[2], e[3], " ".join(_hex("{:16.8f}".format(v)) for v in e[4])))
+        req = "usettab %d %s %d %s" % (len(ci), " ".join(_cord_tokens(v[0], cid, v[1]) for cid, v in ci.items()), len(ents), " ".join(parts))
+        gids = [e[1] for e in ents if e[0] == "g"]
+        br = ["usettab:" + ("with-spoints" if any(e[0] == "s" for e in ents) else "grids-only"),
+              "usettab:" + ("sorted" if gids == sorted(gids) else "unsorted")]
+        if any(e[0] == "g" and e[2] != 0 for e in ents):
+            br.append("usettab:cd-not-cp")
+        B.add("uset-table-write", req, {"entries": ents}, impl, _text_conv(), branch=br)
+        if impl.startswith("error"):
+            continue
+        try:
+            u2, c2 = bulk.bulk2uset(io.StringIO(impl))
+            dof = u2.index.get_level_values("dof").values
+            got = {"grids": [(int(i), int(x), int(y)) for (i, _d), x, y in zip(u2.index[dof == 2].tolist(), u2.loc[dof == 2, "x"], u2.loc[dof == 2, "y"])],
+                   "index": [(int(a), int(b)) for a, b in u2.index.tolist()], "nasset": sorted(set(int(v) for v in u2["nasset"].values))}
+        except Exception as e:  # noqa: BLE001
+            got = "error:" + type(e).__name__
+
+        def conv(rep):
+            if rep == "error":
+                return rep
+            gs = [tuple(int(v) for v in w.split(".")) for w in rep.split()]
+            return {"grids": gs, "index": [(g[0], k) for g in gs for k in range(1, 7)], "nasset": [2097154]}
+
+        B.add("uset-table-read", "b2u " + _hex(impl), {"text": impl}, got, conv, branch="b2u")
+
+
 REQUIRED = [
     "findseq:ok", "findseq:error", "nasints:short", "nasints:exact-fill", "nasints:remainder",
     "csuper:one-line", "csuper:exact-fill", "csuper:remainder", "extrn:exact-fill", "extrn:remainder",
@@ -1314,6 +1736,12 @@ REQUIRED = [
     "grids:ValueError", "grids:defaults", "cord:written", "uset:with-coords", "uset:no-coords",
     "rdgrids:ok", "rdgrids:none", "rdgrids:index-error", "rdgrids:ragged", "rdcardsk", "rdcord2:ok", "rdcord2:error",
     "rdcord2:empty", "rdcord2:13-fields", "rdcord2cards",
+    "usettab:with-spoints", "usettab:grids-only", "usettab:sorted", "usettab:unsorted", "usettab:cd-not-cp", "b2u",
+    "real:E", "real:e", "real:f", "real:three-digit-exponent", "real:zero", "real:wider-than-field",
+    "dmigr:form1", "dmigr:form2", "dmigr:form6", "dmigr:form9", "dmigr:type1", "dmigr:type2", "dmigr:type3", "dmigr:type4", "dmigr:fallback-field",
+    "multi:fileok", "multi:dmig", "multi:grid", "multi:cord2", "multi:spoint", "multi:csuper", "multi:extrn", "multi:tabled1",
+    "multi:set", "multi:rddmig-ok", "multi:rddmig-no-dmig-card", "rddmigx:expanded", "rddmigx:square", "rddmigx:expandedsquare", "rddmigx:form1-expanded", "rddmigx:form1-square",
+    "rddmigx:form2-expanded", "rddmigx:form6-expanded", "rddmigx:form6-square", "rddmigx:form9-expanded", "rddmigx:form9-square",
 ]
 
 
@@ -1322,8 +1750,11 @@ def correspondence(ctx):
     texts = []
     _writer_streams(ctx, B, texts)
     _grid_streams(ctx, B, texts)
+    _real_streams(ctx, B, texts)
     _reader_streams(ctx, B, texts)
     _grid_reader_streams(ctx, B, texts)
+    _multi_streams(ctx, B)
+    _uset_table_streams(ctx, B)
     B.run(ctx)
     for it in B.items[:: max(1, len(B.items) // 6)]:
         ctx.sample({"stream": it[0], "input": it[2]})
@@ -1359,8 +1790,23 @@ def _o_ids(kind, case):
             return ("wtset-line-too-long", "a SET line exceeds max_length", max(len(l) for l in text.split("\n")), case["max_length"])
         got = _read(bulk.rdsets, text)
         want = {case["setid"]: list(ids)}
-        if got != want:
+        # the tokens of the statement, restated here: the head, one token per maximal run ("a THRU b" for >= 2 ids), all but
+        # the last followed by ", ".  The round trip holds EXACTLY when no token is longer than max_length (a longer
+        # token is cut into pieces: the line that ends inside it closes the set, or the head no longer matches)
+        toks, i = ["SET %d = " % case["setid"]], 0
+        while i < len(ids):
+            j = i
+            while j + 1 < len(ids) and ids[j + 1] == ids[j] + 1:
+                j += 1
+            toks.append(("%d THRU %d" % (ids[i], ids[j]) if j > i else "%d" % ids[i]) + ", ")
+            i = j + 1
+        toks[-1] = toks[-1][:-2]
+        fits = all(len(t) <= case["max_length"] for t in toks)
+        if fits and got != want:
             return ("set-roundtrip", "rdsets(wtset(ids)) differs from ids", got if isinstance(got, str) else {k: v[:30] for k, v in got.items()}, want)
+        if not fits and got == want:
+            return ("set-roundtrip-with-split-token", "a token longer than max_length was cut into pieces and the set was still read "
+                    "back: the stated condition (round trip iff every token fits) is not exact", text[:200], "a different result")
     elif kind == "spoint":
         text = _write(bulk.wtspoints, ids)
         if text.startswith("error"):
@@ -1513,10 +1959,75 @@ def _o_dmig(case, known):
         bad9 = _o_dmig_form9(d, a, text)
         if bad9:
             return [bad9]
+    if not bad and fam is None:
+        bado = _o_dmig_options(d, a, text, form)
+        if bado:
+            return [bado]
     if not bad:
         return []
     fam = fam or ("dmig-roundtrip-form%d-type%d" % (form, d["mtype"]))
     return [(fam, "rddmig(wtdmig(x)) != x: " + bad[0], bad[1], bad[2])]
+
+
+def _o_dmig_options(d, a, text, form):
+    """rddmig(expanded=True / square=True / both) of a written matrix, restated on the API: the index is the (expanded)
+    label set of the non-null rows / columns — their union on both axes for form 6 and for form 1 with square=True;
+    1..max column number for an expanded form-9 matrix — every written term sits at its own (row id, column id), all
+    other positions are exactly 0, and nothing is mirrored except for form 6"""
+    bulk = _bulk()
+    key = lambda p: 10 * p[0] + p[1]
+    nzr = [d["rowids"][i] for i in range(a.shape[0]) if a[i].any()]
+    nzc = [d["colids"][j] for j in range(a.shape[1]) if a[:, j].any()]
+
+    def expand(labels):
+        out = set()
+        for g, c in labels:
+            out |= {(g, k) for k in range(1, 7)} if c > 0 else {(g, 0)}
+        return out
+
+    for expanded, square in ((True, False), (False, True), (True, True)):
+        opt = ("expanded" if expanded else "") + ("-" if expanded and square else "") + ("square" if square else "")
+        fam = "dmig-%s-form%d" % (opt, form)
+        g = _read(bulk.rddmig, text, expanded=expanded, square=square)
+        if isinstance(g, str) or d["name"].lower() not in g:
+            return (fam + "-raises", "rddmig(%s) fails on a written matrix" % opt, str(g)[:200], "a DataFrame")
+        g = g[d["name"].lower()]
+        union = form == 6 or (form == 1 and square)
+        rows = set(nzr) | (set(nzc) if union else set())
+        cols = set(nzc) | (set(nzr) if union else set())
+        want_rows = sorted(expand(rows) if expanded else rows, key=key)
+        if form == 9:
+            nums = [c for c, _ in nzc]
+            want_cols = [(k, 0) for k in (range(1, max(c for c, _ in d["colids"]) + 1) if expanded else sorted(nums))]
+        else:
+            want_cols = sorted(expand(cols) if expanded else cols, key=key)
+        grow = [(int(x), int(y)) for x, y in g.index.tolist()]
+        gcol = [(int(x), int(y)) for x, y in g.columns.tolist()] if g.columns.nlevels == 2 else [(int(x), 0) for x in g.columns.tolist()]
+        if grow != want_rows or gcol != want_cols:
+            return (fam + "-index", "rddmig(%s): the index is not the %s label set of the non-null rows / columns%s"
+                    % (opt, "expanded" if expanded else "plain", " (union on both axes)" if union else ""),
+                    {"rows": grow[:14], "cols": gcol[:14]}, {"rows": want_rows[:14], "cols": want_cols[:14]})
+        gv = g.values
+        want = {}
+        for i, r in enumerate(d["rowids"]):
+            for j, c in enumerate(d["colids"]):
+                if a[i, j] != 0:
+                    want[(r, c)] = complex(a[i, j])
+        for i, r in enumerate(grow):
+            for j, c in enumerate(gcol):
+                y = complex(gv[i, j])
+                x = want.get((r, c))
+                if x is None:
+                    if not (y == 0):  # NaN counts as non-zero
+                        what = "mirrored" if (c, r) in want and form != 6 else "fill"
+                        return (fam + "-" + what, "rddmig(%s): position (row %s, column %s) holds no written term but is not 0%s"
+                                % (opt, r, c, " (the term of the transposed position: only form 6 is mirrored)" if what == "mirrored" else ""),
+                                [y.real, y.imag], [0.0, 0.0])
+                elif (abs(x.real - y.real) > 5.05e-10 * abs(x.real) + 1e-300 or abs(x.imag - y.imag) > 5.05e-10 * abs(x.imag) + 1e-300
+                      or y != y):
+                    return (fam + "-values", "rddmig(%s): the term at row %s column %s differs" % (opt, r, c),
+                            [y.real, y.imag], [x.real, x.imag])
+    return None
 
 
 def _val_tol(form1, x):
@@ -1881,6 +2392,81 @@ def _o_uset(case):
     return None
 
 
+def _canon_reader(name, r):
+    if isinstance(r, str):
+        return r
+    if r is None:
+        return "none"
+    if name == "rddmig":
+        return [_frame_canon(k, v) for k, v in r.items()]
+    if name in ("rdcord2cards", "rdcsupers", "rdtabled1"):
+        return {float(k): np.asarray(v).tolist() for k, v in r.items()}
+    if name == "rdsets":
+        return {int(k): [int(x) for x in v] for k, v in r.items()}
+    return np.asarray(r).tolist()
+
+
+def _o_multi(case):
+    """one file with the cards of several writers (and SET statements, comments, foreign cards) interleaved: every reader
+    returns on it exactly what it returns on the text of its own cards alone, and rdsets returns exactly the written sets"""
+    bulk = _bulk()
+    text, own, sets = case["text"], case["own"], case["sets"]
+    readers = [("dmig", "rddmig", bulk.rddmig, {}), ("dmig", "rddmig", bulk.rddmig, {"expanded": True}),
+               ("dmig", "rddmig", bulk.rddmig, {"square": True}), ("grid", "rdgrids", bulk.rdgrids, {}),
+               ("cord2", "rdcord2cards", bulk.rdcord2cards, {}), ("spoint", "rdspoints", bulk.rdspoints, {}),
+               ("csuper", "rdcsupers", bulk.rdcsupers, {}), ("extrn", "rdextrn", bulk.rdextrn, {"expand": False}),
+               ("tabled1", "rdtabled1", bulk.rdtabled1, {})]
+    for blk, name, fn, kw in readers:
+        if blk not in own:
+            continue
+        whole = _canon_reader(name, _read(fn, text, **kw))
+        alone = _canon_reader(name, _read(fn, own[blk], **kw))
+        # (a CORD2x card that refers to an undefined system makes rdcord2cards raise on its own cards too: then the
+        # same exception is required on the shared file)
+        if whole != alone:
+            return ("multi-file-%s-disturbed-by-other-cards" % name,
+                    "%s(%s) on a file that also holds other cards / comments / SET statements differs from %s on its own cards alone"
+                    % (name, kw, name), str(whole)[:300], str(alone)[:300])
+    got = _canon_reader("rdsets", _read(bulk.rdsets, text))
+    want = {int(k): [int(x) for x in v] for k, v in sets}
+    if got != want or (not isinstance(got, str) and list(got) != [int(k) for k, _ in sets]):
+        return ("multi-file-rdsets-disturbed-by-cards", "rdsets on a file that also holds bulk cards does not return exactly the written sets",
+                str(got)[:300], str(want)[:300])
+    return None
+
+
+def _o_e3(case):
+    """a NEGATIVE value whose decimal exponent has three digits (|x| >= 1e100 or < 1e-99): '{:16.9E}' needs 17 characters.
+    wtdmig (finding F64, repaired by 4411a34: `_dmig_field` falls back to '{:16.8E}') must keep every line within 72
+    columns and read the value back to the nine digits written — also as real / imaginary part of a complex term;
+    wttabled1 with its default pair format has no fallback (finding F65, open)"""
+    import pandas as pd
+
+    bulk = _bulk()
+    x = case["x"]
+    if case["writer"] == "wtdmig":
+        ind = pd.MultiIndex.from_tuples([(1, 1), (1, 2)], names=["id", "dof"])
+        z = complex(x, -x) if case.get("complex") else x
+        a = np.array([[z, 0.0], [0.0, 1.0]])
+        text = _write(bulk.wtdmig, {"k": pd.DataFrame(a, index=ind, columns=ind)})
+        got = _read(bulk.rddmig, text)
+        y = None if isinstance(got, str) else complex(got["k"].values[0, 0])
+        bad = (y is None or abs(y.real - z.real) > 5.05e-9 * abs(z.real) or abs(y.imag - z.imag) > 5.05e-9 * abs(z.imag)
+               or any(len(l) > 72 for l in text.split("\n")))
+        fam = FIXED_F64
+    else:
+        text = _write(bulk.wttabled1, 1, [0.0, 1.0], [x, 1.0])
+        got = _read(bulk.rdtabled1, text)
+        y = None if isinstance(got, str) or got[1].shape != (2, 2) else float(got[1][0, 1])
+        bad = y is None or abs(y - x) > 5.05e-10 * abs(x)
+        fam = OPEN_F65
+    if bad:
+        return (fam, "%s writes %r with '{:16.9E}' as a 17-character field (max line %d columns); read back: %r"
+                % (case["writer"], x, max(len(l) for l in text.split("\n")), y if y is not None else str(got)[:80]),
+                None if y is None else ([y.real, y.imag] if isinstance(y, complex) else y), x)
+    return None
+
+
 def _gen_oracle_cases(ctx):
     rng = ctx.rng
     cases = []
@@ -1896,6 +2482,9 @@ def _gen_oracle_cases(ctx):
         cases.append(("extrn", {"ids": ids, "dof": [123456 if i % 3 else 0 for i in ids]}))
         cases.append(("spoint", {"ids": ids}))
         cases.append(("set", {"setid": 7, "ids": ids, "max_length": 72}))
+    for mx in range(2, 27):
+        for ids in ([7], [1, 2, 3], [5, 9, 10, 11, 300], [12345678, 12345679], [3, 3, 2, 1], [10, 11, 13, 14, 15, 99999999]):
+            cases.append(("set", {"setid": rng.choice([1, 77, 12345]), "ids": ids, "max_length": mx}))
     for n in range(0, 14):
         for form, _ in FORMS:
             t, d = _gen_table(rng, n)
@@ -1912,7 +2501,8 @@ def _gen_oracle_cases(ctx):
         elif k == "spoint":
             cases.append((k, {"ids": ids}))
         else:
-            cases.append((k, {"setid": rng.randint(1, 99999), "ids": ids, "max_length": rng.choice([72, 72, 60, 40, 30, 24])}))
+            cases.append((k, {"setid": rng.randint(1, 99999), "ids": ids,
+                              "max_length": rng.choice([72, 72, 60, 40, 30, 24, 20, 16, 13, 12, 11, 10, 9, 8, 7, 6, 5, 4, 3, 2])}))
     for _ in range(ctx.pick(150, 1500)):
         form, _w = FORMS[rng.randrange(3)]
         n = rng.randint(1, 25)
@@ -2033,6 +2623,16 @@ def _gen_oracle_cases(ctx):
         if c is not None:
             cases.append(("cordchain", c))
             ctx.count("oracle:cordchain:depth=%d:%s" % (min(c["depth"], 4), c["order"]))
+    # magnitudes at the edge of what the field holds: three-digit exponents, positive (16 characters) and negative (17)
+    for w in ("wtdmig", "wttabled1"):
+        for x in (1e100, 2.5e-120, -1e99, -3e-99, -1e100, -2.5e-120, -1.5e308, -5e-324):
+            cases.append(("e3", {"writer": w, "x": x}))
+            if w == "wtdmig":
+                cases.append(("e3", {"writer": w, "x": x, "complex": True}))
+    # one file, several readers
+    for _ in range(ctx.pick(60, 600)):
+        text, _segs, own, sets = _gen_multi_file(rng)
+        cases.append(("multi", {"text": text, "own": own, "sets": [[sid, ids] for sid, ids in sets]}))
     # form-9 DMIG with column numbers that are not 1..n
     for cols in ([2, 5, 9], [7], [3, 1], [1, 2, 3], [12, 4]):
         nr = rng.randint(1, 4)
@@ -2061,7 +2661,7 @@ def _hint_cases(hints):
                 out.append(("extrn", {"ids": inp["ids"], "dof": inp["dof"]}))
             elif st == "wtspoints" and inp["spoints"]:
                 out.append(("spoint", {"ids": inp["spoints"]}))
-            elif st == "wtset" and inp["max_length"] >= 24:
+            elif st == "wtset" and inp["max_length"] >= 2:
                 out.append(("set", inp))
             elif st == "find_sequence" and inp["seq"]:
                 out.append(("set", {"setid": 1, "ids": inp["seq"], "max_length": 72}))
@@ -2119,10 +2719,22 @@ def _run_oracle_case(kind, case, known):
     if kind == "cordchain":
         r = _o_cordchain(case)
         return [r] if r else []
+    if kind == "multi":
+        r = _o_multi(case)
+        return [r] if r else []
+    if kind == "e3":
+        r = _o_e3(case)
+        return [r] if r else []
     return []
 
 
+# defect families proposed in a report but not (yet) listed in known_findings.json: none (a new genuine failing input
+# is a VIOLATION until the integrator lists it)
 UNLISTED_OK = set()
+
+# F64 (fixed in /repo 4411a34): regression guard, must pass on the repaired tree.  F65 (open): reported -> KNOWN-FINDING.
+FIXED_F64 = "wtdmig-negative-value-three-digit-exponent-overflows-field"
+OPEN_F65 = "wttabled1-negative-value-three-digit-exponent-overflows-field"
 
 
 def search(ctx, hints):
